@@ -117,8 +117,25 @@ def nested_loop_functions():
                 yield cfg.renumber([("assign", 0), loop(k1, body), ("use", 0)])
 
 
+def nonlocal_functions():
+    """v = ..; one compound over {v=, setvN() [a nested function assigning v through `nonlocal`], use, call, return}; use."""
+    atoms = [("assign", 0), ("assignn", 0), ("use", 0), ("call",), ("return",)]
+    B = [b for b in blocks(atoms, 2)]
+    for b in B:
+        if not any(s[0] == "assignn" for s in b):
+            continue
+        for comp in (("if", b, None), ("while", b, None), ("for", b, None), ("with", "S", b), ("try", b, [[("pass",)]], None, None),
+                     ("try", b, [[("assign", 0)]], None, [("use", 0)])):
+            yield cfg.renumber([("assign", 0), comp, ("use", 0)])
+    for a, b in itertools.product(B, B):
+        if any(s[0] == "assignn" for s in a + b):
+            yield cfg.renumber([("assign", 0), ("if", a, b), ("use", 0)])
+    yield cfg.renumber([("assign", 0), ("use", 0), ("assignn", 0), ("use", 0)])
+
+
 def exhaustive_functions():
     yield from nested_loop_functions()
+    yield from nonlocal_functions()
     for c in compounds():
         for prefix in ([], [("assign", 0)]):
             yield cfg.renumber(prefix + [c, ("use", 0)])
@@ -175,8 +192,8 @@ def paths(stmts, prefix=""):
     def go(b, p):
         for s in b or []:
             t = s[0]
-            if t == "assign":
-                defs[s[1]] = p or "top"
+            if t in ("assign", "assignn"):
+                defs[s[1]] = (p or "top") + ("~nonlocal" if t == "assignn" else "")
             elif t == "use":
                 sites[s[1]] = p or "top"
             elif t in ("if", "while", "for"):
@@ -376,6 +393,7 @@ def run_shard(spec):
         col.extra["exhaustive"] = not col.budget_hit
         col.extra["exhaustive_bounds"] = ["[optional assignment] + every compound with blocks of <=2 atoms (<=1 for three-block try forms) + final use",
                                           "closure reads: one compound over {v=, inner(), call(), return}",
+                                          "nonlocal: v=; one compound or if/else over {v=, nested setter through nonlocal, use, call, return}; use",
                                           "loops nested 2 and 3 deep (while/for at each level) with `if c: [v=;] break/continue` after the inner loop at each level"]
         return col.result()
 
